@@ -11,7 +11,9 @@
      - the header's `if len(path) == 0 { return }` is emitted for struct roots
        only (the pinned header also returned for root maps);
      - the map loop ranges over key and value and hands the ranged value over
-       (the pinned loop looked the key up again, which misses NaN keys).
+       (the pinned loop looked the key up again, which misses NaN keys);
+     - the bool key rendering compiles (the buffer is dereferenced before it is
+       sliced, pointer keys are dereferenced in the condition).
 
    The iterator is a script: whether it wants the key in round i and the control
    value it answers in round i.  The outcome is the trace of the calls made on the
@@ -43,7 +45,8 @@ Inductive ktext :=
 | KT (s : string)
 | KNil          (* `*k` with a nil pointer key: panics *)
 | KUnk.         (* no prediction: a float outside the exact-decimal domain of render_float, or a key
-                   type name for which the emitted code does not compile (bool, byte, named scalars) *)
+                   type name the emitter falls back to x2bytes for (byte, named scalars: the other
+                   emitters do not compile for those) *)
 
 Definition int_names : list string := ["int"; "int8"; "int16"; "int32"; "int64"].
 Definition uint_names : list string := ["uint"; "uint8"; "uint16"; "uint32"; "uint64"].
@@ -51,6 +54,7 @@ Definition smem (s : string) (l : list string) : bool := existsb (String.eqb s) 
 
 Definition render_scalar_key (tn : string) (k : val) : ktext :=
   if String.eqb tn "string" then match k with VStr s => KT s | _ => KUnk end
+  else if String.eqb tn "bool" then match k with VBool b => KT (if b then "true" else "false") | _ => KUnk end
   else if smem tn int_names || smem tn uint_names then match k with VInt z => KT (Z_to_string z) | _ => KUnk end
   else if String.eqb tn "float32" || String.eqb tn "float64" then
     match k with VFloat f => match render_float f with Some t => KT t | None => KUnk end | _ => KUnk end
